@@ -16,7 +16,7 @@ PROP = dict(
     rule="pow: difficulties from boundary classes (0..3, 2^k-1..2^k+1, 2^63+-2, 2^64-3.., around MaxDifficulty, random over the full range) x random nonces with the real SHA3 digest, plus crafted digests at threshold-2..threshold+2 through the real comparison; "
          "plasma: histories on a real node, candidate user sends with fused plasma in {0, base-1, base, avail, avail+1, cap+-1, random} x difficulty {0, valid PoW, claimed without work}; a case is distinct by (function, input); non-trivial = not tagged trivial",
     explanation="Theorems: the byte comparison is numeric >=; CheckPoWNonce accepts iff digest >= 2^64 - floor(2^64/d) for every d in [1,2^64); an accepted block has base <= total = fused + powPlasma <= cap and fused <= plasma(fused QSR) - plasma of unconfirmed blocks; by induction over any candidate sequence the pool never over-commits. "
-                "Modelled: pow.getTargetByDifficulty/greaterDifficulty/CheckPoWNonce, vm.DifficultyToPlasma/FussedAmountToPlasma/AvailablePlasma/enoughPlasma, account.AddChainPlasma, verifier pow(). The base cost is modelled too (vm.GetBasePlasmaForAccountBlock; the per-method costs are dumped from the real method tables on every run). SHA3 and whether the called method exists under the acknowledged spork regime enter as observed inputs.",
+                "Modelled: pow.getTargetByDifficulty/greaterDifficulty/CheckPoWNonce, vm.DifficultyToPlasma/FussedAmountToPlasma/AvailablePlasma/enoughPlasma, account.AddChainPlasma, verifier pow(). The base cost is modelled too (vm.GetBasePlasmaForAccountBlock; the per-method costs are dumped from the real method tables on every run). SHA3 and whether the called method exists under the acknowledged spork regime enter as observed inputs. Tier A (regenerated from source by go2coq on every run and proved EQUAL to the hand-written model: C12_*_is_the_source): getTargetByDifficulty, greaterDifficulty, DifficultyToPlasma, FussedAmountToPlasma, AvailablePlasma and enoughPlasma (store reads, GetBasePlasmaForAccountBlock, IsEmbeddedAddress and the result of AddChainPlasma are inputs of the translations); C12_source_accept_sound states the three conditions of the property directly about the translated enoughPlasma.",
     assumptions=["SHA3-256 digest is an input of the model (real digests are fed by the harness)",
                  "base plasma of the block (data length / embedded method table) is read from the implementation and passed to the model",
                  "0 <= committed <= uncommitted chain plasma (an invariant of the account store, checked on every observed state)"],
